@@ -7,6 +7,9 @@ import ImathVerif.Gen.C09Up
 import ImathVerif.Props.C05
 import ImathVerif.Lemmas.C09Lemmas
 import ImathVerif.Lemmas.C09FrameLemmas
+import ImathVerif.Lemmas.C09NextFrame
+import ImathVerif.Lemmas.C09Quat
+import Mathlib.Analysis.SpecialFunctions.Trigonometric.Inverse
 import Mathlib.Tactic.Ring
 import Mathlib.Tactic.FinCases
 import Mathlib.Tactic.LinearCombination
@@ -457,6 +460,115 @@ theorem firstFrame_coincident (tmin : α) (sqrt : α → α) (hlen : LenSpec (Ge
   rw [firstFrame_eq_spec]
   have : Gen.V3.length tmin sqrt (vsub pi pi) = 0 := (len_eq_zero_iff hlen _).mpr (by simp [vsub])
   simp [firstFrameSpec, this]
+
+/-- `lastFrame (Mi, pi, pj)` = `Mi` followed by the translation `pj − pi` … -/
+theorem lastFrame_eq (Mi m0 : M44 α) (pi pj : V3 α) :
+    (Gen.Frame.lastFrame Mi pi pj).toMat = Mi.toMat * (Gen.M44.setTranslation m0 (vsub pj pi)).toMat := by
+  rw [lastFrame_toMat, transMat_eq_setTranslation m0]
+/-- … so an orthonormal right-handed frame with origin `pi` becomes the same axes with origin `pj` -/
+theorem lastFrame_frame (Mi : M44 α) (pi pj : V3 α) (hMi : IsFrame Mi) (hpi : row3 Mi = pi) :
+    IsFrame (Gen.Frame.lastFrame Mi pi pj) ∧ rot3 (Gen.Frame.lastFrame Mi pi pj) = rot3 Mi ∧
+      row3 (Gen.Frame.lastFrame Mi pi pj) = pj := by
+  obtain ⟨h1, h2, h3⟩ := frame_mul_trans hMi (lastFrame_toMat Mi pi pj)
+  refine ⟨h1, h2, ?_⟩
+  rw [h3, hpi]
+  obtain ⟨x, y, z⟩ := pi
+  obtain ⟨x', y', z'⟩ := pj
+  simp [vadd, vsub]
+example : IsFrame (M44.identity : M44 ℝ) ∧ row3 (M44.identity : M44 ℝ) = ⟨0, 0, 0⟩ := by
+  refine ⟨⟨?_, rfl, rfl, rfl, rfl⟩, rfl⟩
+  have : rot3 (M44.identity : M44 ℝ) = 1 := by
+    ext i j; fin_cases i <;> fin_cases j <;> simp [rot3, M44.identity]
+  rw [this]; exact IsRot.one
+
+/-- `nextFrame`: the extracted 13-path tree as Mathlib matrices — `Mi · T(−pi) · R(ti^ × tj^, acos(ti^·tj^)) · T(pj)` when both tangents
+are non-zero, not parallel and the angle is non-zero, else `Mi · T(pj − pi)` (`nextFrameStep`; `acos` is a parameter: the code calls
+`acosf` for every element type, see the check's notes) -/
+theorem nextFrame_eq (tmin : α) (sqrt sin cos acos : α → α) (Mi : M44 α) (pi pj ti tj : V3 α) :
+    (Gen.Frame.nextFrame tmin sqrt sin cos acos Mi pi pj ti tj).1.toMat
+      = Mi.toMat * nextFrameStep tmin sqrt sin cos acos pi pj ti tj :=
+  nextFrame_toMat tmin sqrt sin cos acos Mi pi pj ti tj
+/-- EVERY path (zero / parallel tangents included): an orthonormal right-handed previous frame with origin `pi` becomes an orthonormal
+right-handed frame with origin `pj`, its axes turned by the rotation `nextFrameRot` -/
+theorem nextFrame_frame (tmin : α) (sqrt sin cos acos : α → α) (hlen : LenSpec (Gen.V3.length tmin sqrt))
+    (hsc : ∀ x, sin x ^ 2 + cos x ^ 2 = 1) (Mi : M44 α) (pi pj ti tj : V3 α) (hMi : IsFrame Mi) (hpi : row3 Mi = pi) :
+    IsFrame (Gen.Frame.nextFrame tmin sqrt sin cos acos Mi pi pj ti tj).1 ∧
+      row3 (Gen.Frame.nextFrame tmin sqrt sin cos acos Mi pi pj ti tj).1 = pj ∧
+      rot3 (Gen.Frame.nextFrame tmin sqrt sin cos acos Mi pi pj ti tj).1 = rot3 Mi * nextFrameRot tmin sqrt sin cos acos ti tj ∧
+      IsRot (nextFrameRot tmin sqrt sin cos acos ti tj) :=
+  nextFrame_isFrame tmin sqrt sin cos acos hlen hsc Mi pi pj ti tj hMi hpi
+/-- for non-zero, non-parallel tangents that rotation takes the direction of `ti` to the direction of `tj` (so a frame whose x-row is the
+old tangent gets the new tangent as x-row). Assumed of `acos`: `cos (acos x) = x ∧ 0 ≤ sin (acos x)` on `[−1, 1]`, and `cos 0 = 1` -/
+theorem nextFrame_tangent (tmin : α) (sqrt sin cos acos : α → α) (hlen : LenSpec (Gen.V3.length tmin sqrt))
+    (hac : AcosSpec sin cos acos) (ti tj : V3 α) (hi : ti ≠ ⟨0, 0, 0⟩) (hj : tj ≠ ⟨0, 0, 0⟩) (hij : cross ti tj ≠ ⟨0, 0, 0⟩) :
+    (nrm (Gen.V3.length tmin sqrt) ti).toVec ᵥ* nextFrameRot tmin sqrt sin cos acos ti tj
+      = (nrm (Gen.V3.length tmin sqrt) tj).toVec :=
+  nextFrameRot_align tmin sqrt sin cos acos hlen hac ti tj hi hj hij
+/-- real `arccos`, `sin`, `cos` satisfy the assumption -/
+example : AcosSpec Real.sin Real.cos Real.arccos :=
+  ⟨Real.sin_sq_add_cos_sq, Real.cos_zero, fun x h1 h2 => ⟨Real.cos_arccos h1 h2, Real.sin_arccos x ▸ Real.sqrt_nonneg _⟩⟩
+/-- the tangents are normalised in place (non-const reference arguments) when both are non-zero, else left alone -/
+theorem nextFrame_tangents_out (tmin : α) (sqrt sin cos acos : α → α) (Mi : M44 α) (pi pj ti tj : V3 α) :
+    (Gen.Frame.nextFrame tmin sqrt sin cos acos Mi pi pj ti tj).2 =
+      if ¬ Gen.V3.length tmin sqrt ti = 0 ∧ ¬ Gen.V3.length tmin sqrt tj = 0 then
+        (⟨ti.x / Gen.V3.length tmin sqrt ti, ti.y / Gen.V3.length tmin sqrt ti, ti.z / Gen.V3.length tmin sqrt ti⟩,
+         ⟨tj.x / Gen.V3.length tmin sqrt tj, tj.y / Gen.V3.length tmin sqrt tj, tj.z / Gen.V3.length tmin sqrt tj⟩)
+      else (ti, tj) :=
+  nextFrame_tangents tmin sqrt sin cos acos Mi pi pj ti tj
+
+/-- `addOffset (inMat, t, r, s, ref)` = scale(s) · rotateXYZ(r · π/180) · translate(t) · inMat · ref, the degree→radian factor being the
+double nearest π/180 (`degToRad = 5030569068109113 / 2^58`) -/
+theorem addOffset_eq (sin cos : α → α) (inMat ref m0 m1 m2 : M44 α) (tOffset rOffset sOffset : V3 α) :
+    (Gen.Frame.addOffset sin cos inMat tOffset rOffset sOffset ref).toMat =
+      (Gen.M44.setScaleV m0 sOffset).toMat
+        * ((Gen.M44.setEulerAngles sin cos m1 (smul degToRad rOffset)).toMat * (Gen.M44.setTranslation m2 tOffset).toMat)
+        * inMat.toMat * ref.toMat := by
+  rw [addOffset_toMat sin cos inMat ref m0 m1, transMat_eq_setTranslation m2]
+example : |(degToRad : ℝ) * 180 - 3.14159265358979| < 1 / 10 ^ 14 := by
+  unfold degToRad; rw [abs_lt]; constructor <;> norm_num
+
+/-- `rotationMatrix (from, to)` = `Quat::setRotation (from, to).toMatrix44 ()`; the 89-path tree of `setRotation` equals the
+documented case analysis `quatSetRotationSpec` (acute: one half-way quaternion; obtuse: product of two; opposite: half-turn) -/
+theorem rotationMatrix_spec (tmin : α) (sqrt : α → α) (fromDir toDir : V3 α) :
+    Gen.Frame.rotationMatrix tmin sqrt fromDir toDir
+      = Gen.Frame.quatToMatrix44 (quatSetRotationSpec (Gen.V3.length tmin sqrt) fromDir toDir) :=
+  rotationMatrix_eq tmin sqrt fromDir toDir
+/-- non-zero directions at an angle ≤ π/2: orthonormal, right-handed, no translation, takes `from^` to `to^` -/
+theorem rotationMatrix_acute (tmin : α) (sqrt : α → α) (hlen : LenSpec (Gen.V3.length tmin sqrt)) (fromDir toDir : V3 α)
+    (hf : fromDir ≠ ⟨0, 0, 0⟩) (ht : toDir ≠ ⟨0, 0, 0⟩)
+    (hd : 0 ≤ dot (nrm (Gen.V3.length tmin sqrt) fromDir) (nrm (Gen.V3.length tmin sqrt) toDir)) :
+    IsFrame (Gen.Frame.rotationMatrix tmin sqrt fromDir toDir) ∧ row3 (Gen.Frame.rotationMatrix tmin sqrt fromDir toDir) = ⟨0, 0, 0⟩ ∧
+      (nrm (Gen.V3.length tmin sqrt) fromDir).toVec ᵥ* rot3 (Gen.Frame.rotationMatrix tmin sqrt fromDir toDir)
+        = (nrm (Gen.V3.length tmin sqrt) toDir).toVec := by
+  rw [rotationMatrix_eq]; exact rotationMatrixSpec_acute hlen hf ht hd
+/-- exactly opposite directions: a half-turn about an axis perpendicular to `from`; takes `from^` to `to^ = −from^` -/
+theorem rotationMatrix_opposite (tmin : α) (sqrt : α → α) (hlen : LenSpec (Gen.V3.length tmin sqrt)) (fromDir toDir : V3 α)
+    (hf : fromDir ≠ ⟨0, 0, 0⟩) (ht : toDir ≠ ⟨0, 0, 0⟩)
+    (hopp : vadd (nrm (Gen.V3.length tmin sqrt) fromDir) (nrm (Gen.V3.length tmin sqrt) toDir) = ⟨0, 0, 0⟩) :
+    IsFrame (Gen.Frame.rotationMatrix tmin sqrt fromDir toDir) ∧ row3 (Gen.Frame.rotationMatrix tmin sqrt fromDir toDir) = ⟨0, 0, 0⟩ ∧
+      (nrm (Gen.V3.length tmin sqrt) fromDir).toVec ᵥ* rot3 (Gen.Frame.rotationMatrix tmin sqrt fromDir toDir)
+        = (nrm (Gen.V3.length tmin sqrt) toDir).toVec := by
+  rw [rotationMatrix_eq]; exact rotationMatrixSpec_opposite hlen hf ht hopp
+/- FULL statement for the remaining case (angle in (π/2, π)): as `rotationMatrix_acute`, i.e. orthonormal right-handed AND
+   `from^ ᵥ* R = to^`.  Proved below: orthonormal, right-handed, affine, no translation (product of two unit quaternions).
+   MISSING: `from^ ᵥ* R = to^` for this branch — it needs `M(q₁q₂) = M(q₂)M(q₁)` together with the fact that the two half rotations
+   share their axis (nested normalisations); it is measured by the residue harness (`rotationMatrix.from->to`). -/
+theorem rotationMatrix_obtuse_partial (tmin : α) (sqrt : α → α) (hlen : LenSpec (Gen.V3.length tmin sqrt)) (fromDir toDir : V3 α)
+    (hf : fromDir ≠ ⟨0, 0, 0⟩) (ht : toDir ≠ ⟨0, 0, 0⟩)
+    (hd : dot (nrm (Gen.V3.length tmin sqrt) fromDir) (nrm (Gen.V3.length tmin sqrt) toDir) < 0)
+    (hopp : vadd (nrm (Gen.V3.length tmin sqrt) fromDir) (nrm (Gen.V3.length tmin sqrt) toDir) ≠ ⟨0, 0, 0⟩) :
+    IsFrame (Gen.Frame.rotationMatrix tmin sqrt fromDir toDir) ∧ row3 (Gen.Frame.rotationMatrix tmin sqrt fromDir toDir) = ⟨0, 0, 0⟩ := by
+  rw [rotationMatrix_eq]; exact rotationMatrixSpec_obtuse hlen hf ht hd hopp
+/-- hence for ALL non-zero `from`, `to` (parallel and opposite included): an orthonormal right-handed frame without translation -/
+theorem rotationMatrix_frame (tmin : α) (sqrt : α → α) (hlen : LenSpec (Gen.V3.length tmin sqrt)) (fromDir toDir : V3 α)
+    (hf : fromDir ≠ ⟨0, 0, 0⟩) (ht : toDir ≠ ⟨0, 0, 0⟩) :
+    IsFrame (Gen.Frame.rotationMatrix tmin sqrt fromDir toDir) ∧ row3 (Gen.Frame.rotationMatrix tmin sqrt fromDir toDir) = ⟨0, 0, 0⟩ := by
+  by_cases hd : 0 ≤ dot (nrm (Gen.V3.length tmin sqrt) fromDir) (nrm (Gen.V3.length tmin sqrt) toDir)
+  · exact ⟨(rotationMatrix_acute tmin sqrt hlen fromDir toDir hf ht hd).1, (rotationMatrix_acute tmin sqrt hlen fromDir toDir hf ht hd).2.1⟩
+  · by_cases hopp : vadd (nrm (Gen.V3.length tmin sqrt) fromDir) (nrm (Gen.V3.length tmin sqrt) toDir) = ⟨0, 0, 0⟩
+    · exact ⟨(rotationMatrix_opposite tmin sqrt hlen fromDir toDir hf ht hopp).1, (rotationMatrix_opposite tmin sqrt hlen fromDir toDir hf ht hopp).2.1⟩
+    · exact rotationMatrix_obtuse_partial tmin sqrt hlen fromDir toDir hf ht (not_le.mp hd) hopp
+example : (⟨1, 0, 0⟩ : V3 ℝ) ≠ ⟨0, 0, 0⟩ ∧ (⟨-3, 1, 0⟩ : V3 ℝ) ≠ ⟨0, 0, 0⟩ := by constructor <;> simp
 
 end Frames
 
